@@ -36,6 +36,9 @@ ASSUMPTIONS = (
     "(whether define_unit/modify/remove of an existing/missing symbol must raise is not part of the statement); a history whose "
     "edit outcome disagrees with the model but agrees with the fresh registry is abandoned and noted",
     "an edit whose defining quantity is written in a unit with a zero-point offset (point or difference?) is not driven",
+    "retained-use sub-monitor: the result of copying/converting/combining a pre-edit object must carry the object's own value; "
+    "not judged for base-unit equivalents, Unit(old_unit) (a new construction from the expression), reductions, and pickle round "
+    "trips (C11); in every case a string constructed afterwards must mean what the current contents say",
     "symbols with a zero-point offset are probed for scale/dimension/offset of atomic and prefixed strings only (arithmetic on "
     "offset scales is C08's subject)",
     "retained objects: snapshot (scale, dimension, offset, expression, data bytes) must not change, conversion to SI base units "
@@ -54,7 +57,7 @@ EDIT_KINDS = ("add", "readd", "modify-float", "modify-quantity", "remove", "defi
 PCLASSES = ("atomic", "prefixed", "compound", "prefixed-compound", "pair-compound", "alias", "alias-prefixed")
 RULE_PROBES = ("mul", "sqrt", "div", "add")      # results that come straight out of the lru_cache'd unit rules
 ACLASSES = ("create", "quantity", "to-base", "to-other", "to_value", "mul", "mul-to-base", "div", "add", "sqrt", "in_base",
-            "convert_to_units", "unit-mul")
+            "convert_to_units", "unit-mul", "mul-inv-base", "div-base", "div-base2", "mul-mixed", "add-base", "rsub-base")
 
 
 def _check_alphabet():
@@ -191,6 +194,14 @@ def observe(unyt, reg, uprobes, aspecs, keep=False, rnames=()):
         put("div", lambda: a / a)
         put("add", lambda: a + a.to(b))
         put("in_base", lambda: a.in_base("mks"))
+        # mixed-unit arithmetic: the probed unit meets units it can (partly) cancel against
+        uq = unyt.unyt_quantity
+        put("mul-inv-base", lambda: a * uq(2.0, "1/(" + b + ")", registry=reg))
+        put("div-base", lambda: a / uq(2.0, b, registry=reg))
+        put("div-base2", lambda: a / uq(4.0, b2, registry=reg))
+        put("mul-mixed", lambda: a * uq(5.0, "kg/km", registry=reg))
+        put("add-base", lambda: a + uq(3.25, b, registry=reg))
+        put("rsub-base", lambda: uq(3.25, b, registry=reg) - a)
 
         def conv():
             c = a.copy()
@@ -518,6 +529,15 @@ class Session:
             E["add"] = (2 * v * s, d, None, tol)
             E["convert_to_units"] = (v * s, d, ob[1], tol)
             E["in_base"] = (v * s, d, None, tol)
+            E["mul-inv-base"] = (v * s * 2.0 / ob[1], dims.ZERO, None, tol)
+            E["div-base"] = (v * s / (2.0 * ob[1]), dims.ZERO, None, tol)
+            E["add-base"] = (v * s + 3.25 * ob[1], d, None, 4 * tol)
+            E["rsub-base"] = (3.25 * ob[1] - v * s, d, None, 16 * tol)
+            if ob2[0] == "ok":
+                E["div-base2"] = (v * s / (4.0 * ob2[1]), dims.div(d, dims.power(d, 2)), None, tol)
+            okm = m.outcome("kg/km")
+            if okm[0] == "ok":
+                E["mul-mixed"] = (v * s * 5.0 * okm[1], dims.mul(d, okm[2]), None, tol + okm[3])
         else:
             E["to-base"] = E["to_value"] = E["convert_to_units"] = "raise"
         if ob2[0] == "ok" and ob2[2] == dims.power(d, 2):
@@ -811,6 +831,7 @@ def batches(tier, seed):
         b.append((f"rand/{k}", {"mode": "rand", "ids": list(range(k, k + per)), "seed": seed, "tier": tier,
                                 "maxlen": 40 if tier == "quick" else 60}))
     b.append(("shadow", {"mode": "shadow", "tier": tier}))
+    b.append(("reuse", {"mode": "reuse", "tier": tier}))
     b.append(("coldcheck", {"mode": "coldcheck", "tier": tier}))
     # interleave long and short batches so that the pool stays busy
     return b
@@ -919,6 +940,8 @@ def worker(batch, rec):
             rec.sample({"random_history": steps[:12], "steps": len(steps)})
         elif mode == "shadow":
             run_shadow(unyt, rec, tier)
+        elif mode == "reuse":
+            run_reuse(unyt, rec, tier)
         elif mode == "coldcheck":
             run_coldcheck(unyt, rec, srv)
         rec.count("cold_calls", srv.calls)
@@ -966,6 +989,127 @@ def run_shadow(unyt, rec, tier):
     rec.sample({"shadow_names": list(SHADOW_NAMES)})
 
 
+REUSE_EDITS = (("add", "foo", 0.5, "M", True, 0.0), ("add", "foo", 8.0, "L", True, 0.0), ("modf", "foo", 3.0),
+               ("modq", "foo", 4.0, "km/s", "default"), ("rm", "foo"))
+REUSE_STRINGS = (("foo", "atomic"), ("kfoo", "prefixed"), ("foo*s", "compound"), ("kfoo/s", "prefixed-compound"), ("foo**2", "compound"))
+
+
+# results that are not "the same quantity as the old object": base units (scale 1 by definition), a new Unit built from the
+# old expression against the registry (takes the current value by design), reductions/elements, and pickle round trips
+# (the expression is re-read against the pickled, i.e. current, table: persistence is C11's subject)
+NO_RESULT_CHECK = ("array.sum", "array[0]", "array.to_string-roundtrip", "unit.get_base_equivalent", "unit.get_mks_equivalent",
+                   "Unit(unit)", "pickle(unit)", "pickle(array)")
+
+
+def reuse_ops(unyt):
+    """operations on objects that were created *before* the edit: name -> (which retained object, callable)"""
+    import copy, pickle
+    return {
+        "unit.copy": ("u", lambda u: u.copy()),
+        "copy.copy(unit)": ("u", lambda u: copy.copy(u)),
+        "copy.deepcopy(unit)": ("u", lambda u: copy.deepcopy(u)),
+        "unit.get_base_equivalent": ("u", lambda u: u.get_base_equivalent()),
+        "unit.get_mks_equivalent": ("u", lambda u: u.get_mks_equivalent()),
+        "unit*unit": ("u", lambda u: u * u),
+        "unit**2": ("u", lambda u: u ** 2),
+        "unit.simplify": ("u", lambda u: (u * u / u).simplify()),
+        "Unit(unit)": ("u", lambda u: unyt.Unit(u, registry=u.registry)),
+        "pickle(unit)": ("u", lambda u: pickle.loads(pickle.dumps(u))),
+        "array.copy": ("x", lambda x: x.copy()),
+        "copy.deepcopy(array)": ("x", lambda x: copy.deepcopy(x)),
+        "array.in_base": ("x", lambda x: x.in_base("mks")),
+        "array.in_cgs": ("x", lambda x: x.in_cgs()),
+        "array.to(own units)": ("x", lambda x: x.to(x.units)),
+        "array.to(str(units))": ("x", lambda x: x.to(str(x.units))),
+        "array*array": ("x", lambda x: x * x),
+        "array+array": ("x", lambda x: x + x),
+        "np.sqrt(array*array)": ("x", lambda x: np.sqrt(x * x)),
+        "array[0]": ("x", lambda x: x[0]),
+        "array.sum": ("x", lambda x: x.sum()),
+        "array.to_string-roundtrip": ("x", lambda x: unyt.unyt_quantity.from_string(str(x[0]), registry=x.units.registry) if hasattr(unyt.unyt_quantity, "from_string") else None),
+        "pickle(array)": ("x", lambda x: pickle.loads(pickle.dumps(x))),
+        "base-units-array.in_base": ("b", lambda b: b.in_base("mks")),
+    }
+
+
+REUSE_OP_NAMES = ("unit.copy", "copy.copy(unit)", "copy.deepcopy(unit)", "unit.get_base_equivalent", "unit.get_mks_equivalent",
+                  "unit*unit", "unit**2", "unit.simplify", "Unit(unit)", "pickle(unit)", "array.copy", "copy.deepcopy(array)",
+                  "array.in_base", "array.in_cgs", "array.to(own units)", "array.to(str(units))", "array*array", "array+array",
+                  "np.sqrt(array*array)", "array[0]", "array.sum", "array.to_string-roundtrip", "pickle(array)",
+                  "base-units-array.in_base")
+
+
+def run_reuse(unyt, rec, tier):
+    """objects created before an edit are *used* after it (copied, converted, combined): the result must carry the value the
+    object had, and a unit string constructed afterwards must still mean what the current contents say (the use must not
+    leak the old value into later string constructions, nor pick up the new one)"""
+    ops = reuse_ops(unyt)
+    assert set(ops) == set(REUSE_OP_NAMES)
+    for edit in REUSE_EDITS:
+        for ustr in ("foo", "kfoo/s"):
+            for state in ("cache-cleared", "cache-refilled"):
+                for opname, (which, fn) in ops.items():
+                    reg, model = unyt.UnitRegistry(), regmodel.RegModel(defaults=True)
+                    first = ("add", "foo", 2.0, "L", True, 0.0)
+                    assert apply_real(unyt, reg, first) == "ok" and model.apply(first) == "ok"
+                    old = model.outcome(ustr)
+                    u = unyt.Unit(ustr, registry=reg)
+                    x = unyt.unyt_array(np.array([1.0, 2.5]), ustr, registry=reg)
+                    b = x.in_base("mks")
+                    kind = edit_kind(edit, model)
+                    if apply_real(unyt, reg, edit) != "ok" or model.apply(edit) != "ok":
+                        rec.note("reuse-edit-failed:" + kind)
+                        continue
+                    if state == "cache-refilled":
+                        for s_, _ in REUSE_STRINGS:
+                            try:
+                                unyt.Unit(s_, registry=reg)
+                            except Exception:
+                                pass
+                    obj = {"u": u, "x": x, "b": b}[which]
+                    rec.count("reuse_cases")
+                    rec.reach(f"reuse|{kind}|{opname}")
+                    case = {"first": first, "edit": edit, "object": which + ":" + ustr, "use": opname, "state": state}
+                    try:
+                        res = fn(obj)
+                    except Exception as e:
+                        rec.note(f"reuse-op-raised:{opname}:{kind}:{type(e).__name__}")
+                        res = None
+                    # (a) the result carries the value the object had
+                    expect = {"unit*unit": 2, "unit**2": 2, "array*array": 2}.get(opname, 1)
+                    if res is not None and opname not in NO_RESULT_CHECK:
+                        rec.count("evals_reuse")
+                        ru = getattr(res, "units", res)
+                        vals = np.atleast_1d(np.asarray(getattr(res, "d", 1.0), dtype="f8"))
+                        si = vals * float(ru.base_value)
+                        base_vals = np.array([1.0, 2.5]) if which != "u" else np.array([1.0])
+                        want = (base_vals * old[1]) ** expect if opname != "array+array" else 2 * base_vals * old[1]
+                        d = dimstr(ru.dimensions)
+                        if d != dimlist(dims.power(old[2], expect)) or si.shape != want.shape or not np.all(np.abs(si - want) <= 1e-12 * np.abs(want)):
+                            rec.violation(f"C12:retained-use:{opname}:result-takes-current-value",
+                                          f"{which} built in {ustr!r} while foo was 2.0 m; after {edit} ({state}) {opname} gives SI {si.tolist()} dims {d}; "
+                                          f"the object's own value gives {want.tolist()} dims {dims.show(dims.power(old[2], expect))}", case)
+                        else:
+                            rec.ok(("reuse-result", kind, opname, state, ustr))
+                    # (b) strings constructed afterwards mean what the current contents say
+                    for s_, pclass in REUSE_STRINGS:
+                        rec.count("evals_reuse")
+                        exp = model.outcome(s_)
+                        try:
+                            v = unyt.Unit(s_, registry=reg)
+                            o = ["ok", float(v.base_value), dimstr(v.dimensions)]
+                        except Exception as e:
+                            o = exc(e)
+                        good = (o[0] == "exc") if exp[0] == "unknown" else (o[0] == "ok" and o[2] == dimlist(exp[2]) and feq(o[1], exp[1], exp[3] + 1e-12))
+                        if good:
+                            rec.ok(("reuse-string", kind, opname, state, pclass))
+                        else:
+                            rec.violation(f"C12:retained-use:{opname}:string-cache-poisoned",
+                                          f"{which} built in {ustr!r} while foo was 2.0 m; after {edit} ({state}) and {opname}, Unit({s_!r}, registry=reg) -> {o}; "
+                                          f"current contents give {exp[:2] if exp[0] == 'ok' else 'unknown name'}", dict(case, string=s_))
+    rec.sample({"reuse_ops": sorted(ops), "edits": [list(e) for e in REUSE_EDITS]})
+
+
 def run_coldcheck(unyt, rec, srv):
     """self-test of the cold oracle: the fork server must answer, be pristine, and must *differ* from a deliberately stale
     warm observation (otherwise the comparison could not see anything)"""
@@ -998,7 +1142,7 @@ def extra(tier, seed, results):
             c[k] = c.get(k, 0) + v
         reached.update(r.get("reached", []))
     deciding = ("evals_model_unit", "evals_model_array", "evals_model_mapping", "evals_fresh", "evals_cold", "evals_retained", "evals_edit_outcome", "evals_system_id",
-                "evals_shadow", "cold_selftest_ok", "multi_registry_histories", "random_histories")
+                "evals_shadow", "evals_reuse", "cold_selftest_ok", "multi_registry_histories", "random_histories")
     zero = [k for k in deciding if not c.get(k)]
     for k in EDIT_KINDS:
         if not c.get("edit:" + k):
@@ -1009,6 +1153,10 @@ def extra(tier, seed, results):
         raise core.Inconclusive(f"cold-oracle-failed:{c.get('cold_failed_calls')}/{c.get('cold_calls')}")
     cat = {f"{e}|{p}" for e in EDIT_KINDS for p in PCLASSES[:5]} | {f"{e}|array:{a}" for e in EDIT_KINDS for a in ACLASSES} \
         | {f"{e}|retained:{k}" for e in EDIT_KINDS for k in ("unit", "array", "array-product")} \
-        | {f"{e}|{p}" for e in ("readd", "modify-float", "modify-quantity", "remove") for p in PCLASSES[5:]}
+        | {f"{e}|{p}" for e in ("readd", "modify-float", "modify-quantity", "remove") for p in PCLASSES[5:]} \
+        | {f"{e}|mapping:{p}" for e in EDIT_KINDS for p in ("atomic", "prefixed")} \
+        | {f"reuse|{e}|{o}" for e in ("readd", "modify-float", "modify-quantity", "remove") for o in REUSE_OP_NAMES} \
+        | {f"clone-{h}|{p}" for h in ("deepcopy", "json", "pickle") for p in PCLASSES} \
+        | {f"shadow|{h}|{p}" for h in ("add", "define_unit") for p in ("atomic", "compound")}
     return {"sub_monitor_counters": {k: c.get(k, 0) for k in sorted(c)}, "catalogue_size": len(cat),
             "unreached": sorted(cat - reached)}
